@@ -54,6 +54,8 @@ func elemToTerm(v Value) *Term {
 		return strTerm(x)
 	case IfaceV:
 		return theEngine.ifaceRef(x)
+	case PtrV:
+		return theEngine.ptrRef(x)
 	}
 	panic(fmt.Sprintf("elemToTerm: %T", v))
 }
@@ -72,6 +74,46 @@ func (e *Engine) ifaceRef(x IfaceV) *Term {
 	e.refPayload[r] = x
 	e.refFactsBy[r.VarName()] = []*Term{Not(App("tq_isnil", SBool, r)), Eq(App("tq_tag", SInt, r), Num(int64(e.typeID(x.Dyn))))}
 	return r
+}
+
+// ptrRef gives a pointer to an external struct (isExternalPtr) an identity term usable as an
+// array element: one ref per pointee object, nil-ness tied to the pointer's own.
+func (e *Engine) ptrRef(x PtrV) *Term {
+	if x.Obj == nil {
+		if x.Nil != TTrue {
+			e.toolError("pointer without pointee stored in a slice")
+		}
+		return nilRef
+	}
+	if len(x.Path) != 0 {
+		e.toolError("interior pointer stored in a slice of external pointers")
+	}
+	if r, ok := e.ptrRefByObj[x.Obj]; ok {
+		return r
+	}
+	r := e.freshVar("ptr", SRef)
+	e.ptrRefByObj[x.Obj] = r
+	e.ptrByRef[r] = x
+	e.refFactsBy[r.VarName()] = []*Term{Iff(App("tq_isnil", SBool, r), x.Nil)}
+	return r
+}
+
+// ptrFromRef: the pointer an element term of such an array stands for. An element the executor
+// has not stored itself (symbolic content) gets one pointee object per element term.
+func (e *Engine) ptrFromRef(r *Term, t types.Type) PtrV {
+	pt := under(t).(*types.Pointer)
+	if r == nilRef {
+		return PtrV{Nil: TTrue, Elem: pt.Elem()}
+	}
+	if p, ok := e.ptrByRef[r]; ok {
+		return p
+	}
+	o := e.newObj("elemptr", pt.Elem(), false)
+	p := PtrV{Obj: o, Nil: App("tq_isnil", SBool, r), Elem: pt.Elem()}
+	e.ptrByRef[r] = p
+	e.ptrRefByObj[o] = r
+	e.symElemObj[o] = true
+	return p
 }
 
 func (e *Engine) ifaceFromRef(r *Term, t types.Type) IfaceV {
@@ -96,6 +138,9 @@ func elemFromTerm(t *Term, elem types.Type) Value {
 	}
 	if _, ok := under(elem).(*types.Interface); ok {
 		return theEngine.ifaceFromRef(t, elem)
+	}
+	if isExternalPtr(elem) {
+		return theEngine.ptrFromRef(t, elem)
 	}
 	if isInteger(elem) && t.Op == "select" {
 		if isUnsigned(elem) {
